@@ -246,5 +246,16 @@ fn get_activity_time(activity: &FormatActivity, stop_schedule: &FormatSchedule) 
 }
 
 fn get_route_start_time(tour: &FormatTour) -> Result<Timestamp, GenericError> {
-    tour.stops.first().map(|stop| parse_time(&stop.schedule().departure)).ok_or_else(|| "empty route".into())
+    tour.stops
+        .first()
+        .map(|stop| {
+            // NOTE: first stop can have more activities than departure, then it has its own time
+            stop.activities()
+                .first()
+                .filter(|activity| activity.activity_type == "departure")
+                .and_then(|activity| activity.time.as_ref())
+                .map(|time| parse_time(&time.end))
+                .unwrap_or_else(|| parse_time(&stop.schedule().departure))
+        })
+        .ok_or_else(|| "empty route".into())
 }
